@@ -1,10 +1,409 @@
 (* C10 — content index resolution is sequential with last definition winning.
-   Only property theorems here, each closed by [exact] and followed by Print Assumptions. *)
+   Only property theorems here, each closed by [exact] and followed by Print Assumptions.
+
+   Vocabulary (Index/IndexSpec.v):  a HISTORY is the list of effective rows — the active rows
+   of the root index sheets in reader order, nested indexes replaced in place by their own
+   effective rows;  [run_rows] is the plain sequential fold over a history;  [spec_flows],
+   [spec_camps], [spec_trigs], [spec_template] read the final registries off a history with
+   no state (survivors of later ignore_rows; last value, first place);  [last_word] is the
+   last row of a history that mentions a name. *)
 From Coq Require Import List NArith ZArith Bool.
-From RPFT Require Import Base.Sexp Base.PyStr Base.Result Gen.Tables Index.TagMatch Index.Index Index.IndexFacts.
+From RPFT Require Import Base.Sexp Base.PyStr Base.Result Base.ODict Gen.Tables
+     Index.TagMatch Index.Index Index.DictFacts Index.IndexSpec Index.IndexFacts Index.IndexRegFacts
+     Index.WorkbookFacts Index.TagMatchFacts Index.IndexExamples Index.IndexExampleFacts.
 Import ListNotations.
 
-(* 4. ignore_row never removes a template *)
+(* ================================================================ 1. inactive rows *)
+
+(* a draft row or a row whose tags fail the filter leaves the state unchanged, whatever
+   else it says and whatever handles nested tables *)
+Theorem C10_inactive_row_no_effect : forall rec pats wbs r st,
+  r_status r = ci_draft \/ matches pats (r_tags r) = false ->
+  step_row rec pats wbs r st = Ok st.
+Proof. exact inactive_row_no_effect. Qed.
+Print Assumptions C10_inactive_row_no_effect.
+
+Theorem C10_inactive_no_effect : forall fuel pats wbs rows st,
+  process fuel pats wbs rows st = process fuel pats wbs (filter (active pats) rows) st.
+Proof. exact inactive_no_effect. Qed.
+Print Assumptions C10_inactive_no_effect.
+
+Example C10_inactive_nonvacuous :
+  r_status r_draft = ci_draft /\
+  matches ex_pats (r_tags r_flowC_tag_b) = false /\ r_status r_flowC_tag_b <> ci_draft /\
+  matches ex_pats (r_tags r_flowA_tag_a) = true.
+Proof. exact ex_inactive. Qed.
+Print Assumptions C10_inactive_nonvacuous.
+
+Example C10_inactive_filter_nontrivial :
+  filter (active ex_pats) ex_root1 =
+  [r_flowA_tag_a; r_flowB_as_X; r_flowA_as_X; r_camp1; r_ignoreA; r_nest; r_trig].
+Proof. exact ex_filter_nontrivial. Qed.
+Print Assumptions C10_inactive_filter_nontrivial.
+
+(* ================================================================ 2. nested indexes in place *)
+
+(* an active content_index row whose sheet resolves to an index table = the rows of that
+   table written in its place: the same final state or the same error.  Fuel: the rows
+   must unfold within [fuel], which by C10_fuel_bound means nesting depth <= fuel. *)
+Theorem C10_nested_in_place : forall fuel pats wbs pre r sub post t st,
+  nestable pats wbs r = Some sub ->
+  expand fuel pats wbs (pre ++ r :: post) = Some t ->
+  process fuel pats wbs (pre ++ r :: post) st = process fuel pats wbs (pre ++ sub ++ post) st.
+Proof. exact nested_in_place. Qed.
+Print Assumptions C10_nested_in_place.
+
+Theorem C10_nested_in_place_history : forall fuel pats wbs pre r sub post t,
+  nestable pats wbs r = Some sub ->
+  expand fuel pats wbs (pre ++ r :: post) = Some t ->
+  exists t', expand fuel pats wbs (pre ++ sub ++ post) = Some t' /\ flatten pats t' = flatten pats t.
+Proof. exact nested_in_place_history. Qed.
+Print Assumptions C10_nested_in_place_history.
+
+Example C10_nested_nonvacuous :
+  ex_root1 = ex_pre ++ r_nest :: [r_trig] /\
+  nestable ex_pats ex_wbs r_nest = Some ex_sub /\
+  option_map depth (expand ex_fuel ex_pats ex_wbs (ex_pre ++ r_nest :: [r_trig])) = Some 1.
+Proof. exact ex_nested. Qed.
+Print Assumptions C10_nested_nonvacuous.
+
+(* the fuel bound, explicitly: fuel suffices iff it is at least the nesting depth *)
+Theorem C10_fuel_bound : forall fuel pats wbs rows t,
+  expand fuel pats wbs rows = Some t <->
+  (exists f0, expand f0 pats wbs rows = Some t) /\ depth t <= fuel.
+Proof. exact fuel_bound. Qed.
+Print Assumptions C10_fuel_bound.
+
+Example C10_fuel_nonvacuous :
+  expand 0 ex_pats ex_wbs ex_root1 = None /\
+  option_map depth (expand 1 ex_pats ex_wbs ex_root1) = Some 1.
+Proof. exact ex_fuel_needed. Qed.
+Print Assumptions C10_fuel_nonvacuous.
+
+(* the fold over an index table (any depth of nesting) is the plain fold over its history;
+   a run that ends well never ran out of fuel *)
+Theorem C10_process_history : forall fuel pats wbs rows t st,
+  expand fuel pats wbs rows = Some t ->
+  process fuel pats wbs rows st = run_rows wbs (flatten pats t) st.
+Proof. exact process_history. Qed.
+Print Assumptions C10_process_history.
+
+Theorem C10_process_ok_expand : forall fuel pats wbs rows st st',
+  process fuel pats wbs rows st = Ok st' -> exists t, expand fuel pats wbs rows = Some t.
+Proof. exact process_ok_expand. Qed.
+Print Assumptions C10_process_ok_expand.
+
+Example C10_process_nonvacuous :
+  rmap (fun st => map fd_key (st_flows st)) (process ex_fuel ex_pats ex_wbs ex_root1 st0) = Ok [sX; sX; sA].
+Proof. exact ex_process_ok. Qed.
+Print Assumptions C10_process_nonvacuous.
+
+(* ================================================================ 3. last definition wins *)
+
+(* the registries a sequential run ends with ARE the declarative reading of its history *)
+Theorem C10_registries : forall wbs rows st,
+  run_rows wbs rows st0 = Ok st ->
+  st_flows st = spec_flows rows /\
+  st_camps st = spec_camps wbs rows /\
+  st_trigs st = spec_trigs wbs rows /\
+  st_templates st = of_list (tmpl_defs wbs rows).
+Proof. exact run_rows_registries. Qed.
+Print Assumptions C10_registries.
+
+Example C10_registries_nonvacuous :
+  rmap (fun st => (map fd_key (st_flows st), okeys (st_camps st))) (run_rows ex_wbs ex_hist st0) =
+  Ok ([sX; sX; sA; sC], [sCamp]).
+Proof. exact ex_run_rows. Qed.
+Print Assumptions C10_registries_nonvacuous.
+
+(* the same from any reachable state: what nobody ignored later, updated by the survivors *)
+Theorem C10_registries_from : forall wbs rows st st',
+  regs_nodup st -> run_rows wbs rows st = Ok st' ->
+  st_flows st' = filter (fun f => negb (ignored_later rows (fd_key f))) (st_flows st) ++ spec_flows rows /\
+  st_camps st' = oupdate str_eqb (filter (fun kv => negb (ignored_later rows (fst kv))) (st_camps st))
+                         (survivors str_eqb row_ignores (row_camp wbs) rows) /\
+  st_trigs st' = oupdate str_eqb (filter (fun kv => negb (ignored_later rows (fst kv))) (st_trigs st))
+                         (survivors str_eqb row_ignores (row_trig wbs) rows) /\
+  st_templates st' = oupdate str_eqb (st_templates st) (tmpl_defs wbs rows).
+Proof. exact run_rows_registries_from. Qed.
+Print Assumptions C10_registries_from.
+
+(* a create_flow definition survives iff no LATER row of the history is an ignore_row of
+   its (new) name *)
+Theorem C10_flow_survives_iff : forall rows f,
+  In f (spec_flows rows) <->
+  exists pre r post, rows = pre ++ r :: post /\ row_flow r = Some f /\ ignored_later post (fd_key f) = false.
+Proof. exact spec_flows_in. Qed.
+Print Assumptions C10_flow_survives_iff.
+
+Theorem C10_ignored_later_spec : forall rows n,
+  ignored_later rows n = true <-> exists r, In r rows /\ row_ignores r = Some n.
+Proof. exact ignored_later_spec. Qed.
+Print Assumptions C10_ignored_later_spec.
+
+(* campaign n / trigger sheet n / template n: decided by the LAST row that mentions n *)
+Theorem C10_camp_last_word : forall wbs rows st n,
+  run_rows wbs rows st0 = Ok st ->
+  sget (st_camps st) n =
+  match last_word str_eqb row_ignores (row_camp wbs) rows n with Some w => w | None => None end.
+Proof. exact camp_last_word. Qed.
+Print Assumptions C10_camp_last_word.
+
+Theorem C10_trig_last_word : forall wbs rows st n,
+  run_rows wbs rows st0 = Ok st ->
+  sget (st_trigs st) n =
+  match last_word str_eqb row_ignores (row_trig wbs) rows n with Some w => w | None => None end.
+Proof. exact trig_last_word. Qed.
+Print Assumptions C10_trig_last_word.
+
+Theorem C10_tmpl_last_word : forall wbs rows st n,
+  run_rows wbs rows st0 = Ok st ->
+  sget (st_templates st) n =
+  match last_word str_eqb never (row_tmpl wbs) rows n with Some w => w | None => None end.
+Proof. exact tmpl_last_word. Qed.
+Print Assumptions C10_tmpl_last_word.
+
+(* what "the last row that mentions n" means *)
+Theorem C10_last_word_spec : forall (ign : irow -> option str) (V : Type) (def : irow -> option (str * V)) rows n w,
+  last_word str_eqb ign def rows n = Some w <->
+  exists pre r post, rows = pre ++ r :: post /\ last_word str_eqb ign def post n = None /\
+    ((exists m, ign r = Some m /\ str_eqb m n = true /\ w = None) \/
+     (exists k v, ign r = None /\ def r = Some (k, v) /\ str_eqb k n = true /\ w = Some v)).
+Proof. exact last_word_spec_str. Qed.
+Print Assumptions C10_last_word_spec.
+
+Example C10_last_word_nonvacuous :
+  last_word str_eqb row_ignores keyed_flow ex_hist sA = Some (Some (mk_fdef sA [] [] [])) /\
+  last_word str_eqb row_ignores keyed_flow (firstn 5 ex_hist) sA = Some None /\
+  last_word str_eqb row_ignores keyed_flow ex_hist sX = Some (Some (mk_fdef sA sX [] [])) /\
+  last_word str_eqb row_ignores keyed_flow ex_hist sB = None /\
+  last_word str_eqb row_ignores (row_camp ex_wbs) ex_hist sCamp = Some (Some ((0, sC1), s_g2)).
+Proof. exact ex_last_word. Qed.
+Print Assumptions C10_last_word_nonvacuous.
+
+(* the whole run: tag matcher, every root index in reader order, nested indexes in place,
+   missing templates, parse_all.  Flows are the by-name dictionary of the instances of the
+   surviving definitions: place of the first, content of the last, names unique. *)
+Theorem C10_last_definition_wins : forall fuel params wbs out,
+  create_flows fuel params wbs = Ok out ->
+  exists pats hist st insts,
+    tag_matcher params = Some pats /\
+    history fuel pats wbs = Some hist /\
+    resolved wbs hist st /\
+    all_instances st (spec_flows hist) = Ok insts /\
+    o_flows out = map snd (of_list insts) /\
+    flows_by_name insts (o_flows out) /\
+    o_camps out = map (fun e => mk_ocamp (fst e) (fst (snd e)) (snd (snd e))) (spec_camps wbs hist) /\
+    o_trigs out = flat_map trig_rows (spec_trigs wbs hist) /\
+    (forall t, In t (o_trigs out) -> In (ot_flow t) (map of_name (o_flows out))).
+Proof. exact create_flows_spec. Qed.
+Print Assumptions C10_last_definition_wins.
+
+Example C10_last_definition_wins_nonvacuous :
+  rmap ex_view (create_flows ex_fuel ex_params ex_wbs) =
+  Ok ([sX; sA; sC_r1; sC_r2], [(1, sA); (1, sA); (1, sC); (1, sC)], [s_t1; s_t1; []; []],
+      [mk_ocamp sCamp (0, sC1) s_g2], [mk_otrig (0, sT1) 0 sX]).
+Proof. exact ex_run. Qed.
+Print Assumptions C10_last_definition_wins_nonvacuous.
+
+Example C10_history_nonvacuous :
+  tag_matcher ex_params = Some ex_pats /\ history ex_fuel ex_pats ex_wbs = Some ex_hist.
+Proof. exact ex_history. Qed.
+Print Assumptions C10_history_nonvacuous.
+
+(* output flow names are unique; first place, last content *)
+Theorem C10_flows_by_name : forall insts,
+  Forall well_named insts -> flows_by_name insts (map snd (of_list insts)).
+Proof. exact of_list_flows_by_name. Qed.
+Print Assumptions C10_flows_by_name.
+
+Theorem C10_flow_exists_iff : forall st fl insts flows n,
+  all_instances st fl = Ok insts -> flows_by_name insts flows ->
+  (In n (map of_name flows) <->
+   exists f l, In f fl /\ instances st f = Ok l /\ In n (map fst l)).
+Proof. exact flow_exists_iff. Qed.
+Print Assumptions C10_flow_exists_iff.
+
+(* DESIGN §5-C10 item 3 for create_flow rows without data sheet: the output flow named n
+   exists iff the LAST row of the history mentioning n (as a create_flow (new) name or as an
+   ignore_row) is a create_flow row, and it is built from that row *)
+Theorem C10_plain_flow_last_word : forall hist st insts flows,
+  Forall plain (spec_flows hist) ->
+  all_instances st (spec_flows hist) = Ok insts -> flows_by_name insts flows ->
+  forall n o,
+    (In o flows /\ of_name o = n) <->
+    exists f, last_word str_eqb row_ignores keyed_flow hist n = Some (Some f) /\
+              parse_flow st f n None = Ok (n, o).
+Proof. exact plain_flow_last_word. Qed.
+Print Assumptions C10_plain_flow_last_word.
+
+Example C10_plain_flow_nonvacuous :
+  Forall plain (spec_flows ex_hist1) /\
+  exists st insts flows,
+    load ex_fuel ex_pats [ex_wb1] = Ok st /\
+    all_instances st (spec_flows ex_hist1) = Ok insts /\ flows_by_name insts flows /\
+    map of_name flows = [sX; sA].
+Proof. exact ex_plain. Qed.
+Print Assumptions C10_plain_flow_nonvacuous.
+
+(* ... and read literally for ALL rows that item is false (one flow per data row is named
+   "<name> - <row id>"): the statement above is about definitions, as the property text is *)
+Theorem C10_design_item3_literal_refuted : ~ design_item3_literal.
+Proof. exact design_item3_literal_refuted. Qed.
+Print Assumptions C10_design_item3_literal_refuted.
+
+(* ================================================================ 3''. the data-sheet registry *)
+
+(* a data_sheet row (re)defines exactly one name — a later definition replaces an earlier
+   one — from the registry as it stands just before it; merely reading a sheet registers
+   nothing; no other row, ignore_row included, touches the entry *)
+Theorem C10_data_row_defines : forall wbs r st st' n,
+  step_other wbs r st = Ok st' -> row_data_key r = Some n ->
+  exists model rows st1,
+    concat_data wbs (r_sheets r) None [] st = Ok (model, rows, st1) /\
+    st_data st' = sset (st_data st) n (mk_dsheet (match model with Some m => m | None => 0 end) rows).
+Proof. exact data_row_defines. Qed.
+Print Assumptions C10_data_row_defines.
+
+Theorem C10_data_row_frame : forall wbs r st st' n,
+  step_other wbs r st = Ok st' -> row_data_key r <> Some n ->
+  sget (st_data st') n = sget (st_data st) n.
+Proof. exact data_row_frame. Qed.
+Print Assumptions C10_data_row_frame.
+
+Theorem C10_data_last_definition : forall wbs pre r post st' n,
+  run_rows wbs (pre ++ r :: post) st0 = Ok st' ->
+  row_data_key r = Some n ->
+  (forall r', In r' post -> row_data_key r' <> Some n) ->
+  exists st1 model rows st2,
+    run_rows wbs pre st0 = Ok st1 /\
+    concat_data wbs (r_sheets r) None [] st1 = Ok (model, rows, st2) /\
+    sget (st_data st') n = Some (mk_dsheet (match model with Some m => m | None => 0 end) rows).
+Proof. exact data_last_definition. Qed.
+Print Assumptions C10_data_last_definition.
+
+Theorem C10_data_never_defined : forall wbs rows st' n,
+  run_rows wbs rows st0 = Ok st' ->
+  (forall r, In r rows -> row_data_key r <> Some n) ->
+  sget (st_data st') n = None.
+Proof. exact data_never_defined. Qed.
+Print Assumptions C10_data_never_defined.
+
+Example C10_data_nonvacuous :
+  ex_hist = firstn 9 ex_hist ++ r_data :: [r_flowC_data] /\
+  row_data_key r_data = Some sD1 /\ row_data_key r_flowC_data = None /\
+  rmap (fun st => option_map (fun ds => okeys (ds_rows ds)) (sget (st_data st) sD1))
+       (run_rows ex_wbs ex_hist st0) = Ok (Some [s_r1; s_r2]).
+Proof. exact ex_data. Qed.
+Print Assumptions C10_data_nonvacuous.
+
+(* ================================================================ 4. ignore_row *)
+
 Theorem C10_ignore_never_template : forall n st, st_templates (ignore_row n st) = st_templates st.
 Proof. exact ignore_never_template. Qed.
 Print Assumptions C10_ignore_never_template.
+
+(* ignore_row n removes exactly the flow definitions, the campaign and the trigger sheet of
+   name n: nothing else changes, order is kept *)
+Theorem C10_ignore_row_exact : forall n st,
+  NoDup (okeys (st_camps st)) -> NoDup (okeys (st_trigs st)) ->
+  let st' := ignore_row n st in
+  st_templates st' = st_templates st /\ st_data st' = st_data st /\ st_models st' = st_models st /\
+  (forall f, In f (st_flows st') <-> In f (st_flows st) /\ fd_key f <> n) /\
+  st_flows st' = filter (fun f => negb (str_eqb (fd_key f) n)) (st_flows st) /\
+  (forall k, sget (st_camps st') k = if str_eqb n k then None else sget (st_camps st) k) /\
+  okeys (st_camps st') = filter (fun k => negb (str_eqb k n)) (okeys (st_camps st)) /\
+  (forall k, sget (st_trigs st') k = if str_eqb n k then None else sget (st_trigs st) k) /\
+  okeys (st_trigs st') = filter (fun k => negb (str_eqb k n)) (okeys (st_trigs st)).
+Proof. exact ignore_row_exact. Qed.
+Print Assumptions C10_ignore_row_exact.
+
+(* its hypotheses hold in every state a run reaches *)
+Theorem C10_reachable_nodup : forall wbs rows st,
+  run_rows wbs rows st0 = Ok st ->
+  NoDup (okeys (st_camps st)) /\ NoDup (okeys (st_trigs st)).
+Proof. exact reachable_nodup. Qed.
+Print Assumptions C10_reachable_nodup.
+
+Example C10_ignore_nonvacuous :
+  exists st, run_rows ex_wbs (firstn 8 ex_hist) st0 = Ok st /\
+    NoDup (okeys (st_camps st)) /\ NoDup (okeys (st_trigs st)) /\
+    sget (st_camps st) sCamp <> None /\ map fd_key (st_flows st) = [sX; sX; sA] /\
+    okeys (st_templates st) = [sA].
+Proof. exact ex_ignore. Qed.
+Print Assumptions C10_ignore_nonvacuous.
+
+Example C10_ignore_effect_nonvacuous :
+  rmap ex_ignore_view (run_rows ex_wbs (firstn 8 ex_hist) st0) =
+  Ok (Some ((0, sC1), s_g2), None, [sX; sX; sA], [sA], [sA]).
+Proof. exact ex_ignore_compute. Qed.
+Print Assumptions C10_ignore_effect_nonvacuous.
+
+(* ================================================================ 5. several workbooks *)
+
+(* one candidate per reader that has the sheet, in reader (= input) order *)
+Theorem C10_candidates_spec : forall wbs name,
+  candidates wbs name = flat_map (candidate_of name) (number_from 0 wbs).
+Proof. exact candidates_spec. Qed.
+Print Assumptions C10_candidates_spec.
+
+(* a sheet name resolves to the copy in the LAST workbook that has it *)
+Theorem C10_resolve_spec : forall wbs name j n' b,
+  resolve wbs name = Some ((j, n'), b) <->
+  n' = name /\
+  exists pre wb post, wbs = pre ++ wb :: post /\ j = length pre /\
+                      wb_get wb name = Some b /\ Forall (lacks name) post.
+Proof. exact resolve_spec. Qed.
+Print Assumptions C10_resolve_spec.
+
+Theorem C10_resolve_none : forall wbs name,
+  resolve wbs name = None <-> Forall (lacks name) wbs.
+Proof. exact resolve_none. Qed.
+Print Assumptions C10_resolve_none.
+
+(* all root index sheets are folded in input order, on one state: the run is the plain
+   fold over the concatenation of their histories *)
+Theorem C10_indices_in_input_order : forall fuel pats wbs idxs h st,
+  histories fuel pats wbs idxs = Some h ->
+  process_indices fuel pats wbs idxs st = run_rows wbs h st.
+Proof. exact process_indices_history. Qed.
+Print Assumptions C10_indices_in_input_order.
+
+Theorem C10_load_history : forall fuel pats wbs st,
+  load fuel pats wbs = Ok st ->
+  exists h st1, candidates wbs ci_root_sheet <> [] /\
+                history fuel pats wbs = Some h /\
+                run_rows wbs h st0 = Ok st1 /\
+                populate wbs (st_flows st1) st1 = Ok st.
+Proof. exact load_history. Qed.
+Print Assumptions C10_load_history.
+
+Example C10_multi_workbook_nonvacuous :
+  resolve ex_wbs sA = Some ((1, sA), BFlow) /\
+  resolve [ex_wb2; ex_wb1] sA = Some ((1, sA), BFlow) /\
+  resolve ex_wbs sB = Some ((0, sB), BFlow) /\
+  resolve ex_wbs s_a = None /\
+  candidates ex_wbs ci_root_sheet = [((0, ci_root_sheet), BIndex ex_root1); ((1, ci_root_sheet), BIndex ex_root2)].
+Proof. exact ex_resolve. Qed.
+Print Assumptions C10_multi_workbook_nonvacuous.
+
+(* ================================================================ 6. the tag matcher *)
+
+Theorem C10_tagmatch_spec : forall pats tags,
+  matches pats tags = true <->
+  forall i tag, nth_error tags i = Some tag -> tag <> [] ->
+                (exists p, In (Z.of_nat i, p) pats) -> In (Z.of_nat i, tag) pats.
+Proof. exact matches_spec. Qed.
+Print Assumptions C10_tagmatch_spec.
+
+Theorem C10_tag_matcher_fails_iff : forall params,
+  tag_matcher params = None <-> exists p rest, params = p :: rest /\ py_int p = None.
+Proof. exact tag_matcher_none. Qed.
+Print Assumptions C10_tag_matcher_fails_iff.
+
+Example C10_tagmatch_nonvacuous :
+  matches ex_pats [s_a] = true /\ matches ex_pats [s_b] = false /\
+  matches ex_pats [[]; s_b] = true /\ matches ex_pats [] = true /\
+  tag_matcher [s_a] = None /\ tag_matcher [s_1; s_a] = Some ex_pats.
+Proof. exact ex_matches. Qed.
+Print Assumptions C10_tagmatch_nonvacuous.
